@@ -1,7 +1,7 @@
 """Single source for MANIFEST.json: which properties are claimed, with what level and words.
 `bin/mkmanifest` regenerates MANIFEST.json from this table."""
 
-HOOK_COMMITS = ["dd746d4", "4649a0c", "f0f9d5b", "29afb13"]
+HOOK_COMMITS = ["dd746d4", "4649a0c", "f0f9d5b", "29afb13", "bac1db4"]
 
 CHECKS = {
     "C08": dict(
